@@ -7,7 +7,7 @@ from .common import *
 
 META = {
     'title': 'streaming: update() continues from the stored chaining value and padding object (never re-initialises them), one-shot = initstate + the same update body, block iterator continuation, BLAKE2 final flag only under padding, Nilsimsa accumulators',
-    'expected_min': 30,
+    'expected_min': 344,
     'explanation': 'Effect analysis: update() of MD4/MD5/SHA1/SHA2/Blake/Blake2 reads H before writing it, does not call initstate and does not replace '
                    'padmethod, while __call__ is initstate followed by the same update (so one-shot and streamed runs share one body and equality '
                    'reduces to the block iterator); the block iterator continuation (start = bitcnt, per-block counter before each yield, refusal of '
